@@ -475,7 +475,13 @@ class ModulePrinter(ExpressionPrinter):
     def visit_withitem(self, node):
         assert isinstance(node, (ast.withitem, ast.With))
 
-        self._expression(node.context_expr)
+        if isinstance(node.context_expr, ast.Tuple) and node.context_expr.elts and node.optional_vars is None:
+            # A parenthesised tuple on its own would be parsed as a parenthesised list of with items
+            self.printer.delimiter('(')
+            self._expression(node.context_expr)
+            self.printer.delimiter(')')
+        else:
+            self._expression(node.context_expr)
 
         if node.optional_vars is not None:
             self.printer.keyword('as')
